@@ -9,6 +9,7 @@ Properties: C07 (layout, round trip, total decoder, extensions never travel), C0
 C15 (codec built from the configuration).
 """
 import prelude
+import streams_parts
 
 NAME = 'wire'
 BACKEND = 'verus'
@@ -72,8 +73,8 @@ pub mod bincode {
 }
 
 // tokio::io::{AsyncRead, AsyncWrite}: a byte source with the bytes still to come, a byte sink with the bytes written so far
-pub trait AsyncWrite { spec fn out(&self) -> Seq<u8>; }
-pub trait AsyncRead { spec fn remaining(&self) -> Seq<u8>; }
+pub trait AsyncWrite { spec fn out(&self) -> Seq<u8>; spec fn id(&self) -> nat; }      // id: which stream this is (never changes)
+pub trait AsyncRead { spec fn remaining(&self) -> Seq<u8>; spec fn id(&self) -> nat; }
 pub trait Unpin {}
 
 pub open spec fn be32(n: nat) -> Seq<u8> { seq![((n / 16777216) % 256) as u8, ((n / 65536) % 256) as u8, ((n / 256) % 256) as u8, (n % 256) as u8] }
@@ -116,7 +117,7 @@ impl<T: AsyncWrite> FramedWrite<T, LengthDelimitedCodec> {
     #[verifier::external_body]
     pub async fn send(&mut self, item: Bytes) -> (r: Result<()>)
         requires old(self).codec.lfl == 4, old(self).codec.be
-        ensures final(self).codec == old(self).codec,
+        ensures final(self).codec == old(self).codec, final(self).inner.id() == old(self).inner.id(),
             r is Ok ==> item@.len() <= old(self).codec.max && final(self).inner.out() == old(self).inner.out() + frame(item@),
             item@.len() > old(self).codec.max ==> r is Err && final(self).inner.out() == old(self).inner.out(),
     { unimplemented!() }
@@ -153,6 +154,7 @@ impl<T: AsyncRead> FramedRead<T, LengthDelimitedCodec> {
 CONFIG_STANDIN = r'''
 // crate::Config: only the accessor the codec reads (extracted verbatim below)
 pub struct Config { pub max_frame_size: Option<usize> }
+impl Config { #[verifier::external_body] pub fn default() -> (r: Config) ensures r.max_frame_size is None { unimplemented!() } }
 '''
 
 SPEC = r'''
@@ -250,7 +252,7 @@ pub proof fn lemma_message_prefix_rejected(v: Version, h: Seq<u8>, b: Seq<u8>, k
 
 def build(ctx):
     C = ctx
-    t = HEADER
+    t = prelude.HEADER
     # ---- types (verbatim) --------------------------------------------------------------------------
     t += C.item(TYPES, 'enum Version', rewrites=[('X5', 'V1 = 1,', 'V1,', 1)])
     t += C.item(RESP, 'enum StatusCode', rewrites=[('X5', r'\s*=\s*\d+,', ',', None, True)])
@@ -295,7 +297,7 @@ impl Version {
 // version preamble reader / writer: ASSUMED here, PROVED by unit kani_wire (all 2^64 contents x every length) on the same extracted text
 #[verifier::external_body]
 pub async fn write_version_frame<T: AsyncWrite + Unpin>(send_stream: &mut T, version: Version) -> (r: Result<()>)
-    ensures r is Ok ==> final(send_stream).out() == old(send_stream).out() + preamble(version),
+    ensures r is Ok ==> final(send_stream).out() == old(send_stream).out() + preamble(version), final(send_stream).id() == old(send_stream).id(),
 { unimplemented!() }
 #[verifier::external_body]
 pub async fn read_version_frame<T: AsyncRead + Unpin>(recv_stream: &mut T) -> (r: Result<Version>)
@@ -388,9 +390,19 @@ pub open spec fn no_limit() -> usize { usize::MAX }   // "no size limit is impos
     ensures
         r.lfl == 4 && r.be, // @OBL network_message_frame_codec::length_field [C07,C15] frames carry a 4-byte big-endian length prefix
         config.max_frame_size is Some ==> r.max == config.max_frame_size->Some_0, // @OBL network_message_frame_codec::configured_limit [C15] a configured maximum frame size is the codec's limit, exactly
-        config.max_frame_size is None ==> r.max == no_limit(), // @OBL network_message_frame_codec::no_limit_when_unconfigured [C15] with no maximum configured, no size limit is imposed
         config.max_frame_size is None ==> r.max == TOKIO_UTIL_DEFAULT_MAX_FRAME, // @OBL network_message_frame_codec::unconfigured_limit_is_tokio_default [C15] (fingerprint of the known finding) with no maximum configured the limit is tokio-util's 8 MiB default
 ''')
+    # The clause of C15 that FAILS on the pinned tree (known finding) is kept OUT of the function's contract: Verus assumes every
+    # postcondition of a callee at its call sites, so a false clause there would make the callers' proofs vacuous.  It is checked in a
+    # caller of its own that nothing else uses.
+    t += '''
+fn obligation_no_limit_when_unconfigured(config: &Config)
+    requires config.max_frame_size is None
+{
+    let codec = network_message_frame_codec(config);
+    assert(codec.max == no_limit()); // @OBL network_message_frame_codec::no_limit_when_unconfigured [C15] with no maximum configured, no size limit is imposed
+}
+'''
     # ---- message writers / readers ----------------------------------------------------------------------
     codec_pre = '''
     requires
@@ -402,14 +414,14 @@ pub open spec fn no_limit() -> usize { usize::MAX }   // "no size limit is impos
             + enc_message(request.head.version, raw_req(request.head.route, request.head.headers).ser(), request.body@), // @OBL write_request::layout [C07,C02] bytes written = preamble(version) ++ frame(bincode(route, headers)) ++ frame(body): nothing else, in this order, extensions not included
         r is Ok ==> raw_req(request.head.route, request.head.headers).ser().len() <= old(send_stream).codec.max
             && request.body@.len() <= old(send_stream).codec.max, // @OBL write_request::sender_enforces_limit [C15] a request whose header or body exceeds the local maximum is refused by the sender
-        final(send_stream).codec == old(send_stream).codec, // @OBL write_request::codec_unchanged [C15] writing does not change the limit
+        final(send_stream).codec == old(send_stream).codec && final(send_stream).inner.id() == old(send_stream).inner.id(), // @OBL write_request::codec_unchanged [C15,C02] writing changes neither the limit nor which stream is written to
 ''')
     t += C.fn(WIRE, 'fn write_response', 'write_response', ['C07', 'C15', 'C02'], ret='r', spec=codec_pre % ('send_stream', 'send_stream') + '''
     ensures
         r is Ok ==> final(send_stream).inner.out() == old(send_stream).inner.out()
             + enc_message(response.head.version, raw_resp(status_code(response.head.status), response.head.headers).ser(), response.body@), // @OBL write_response::layout [C07,C02] bytes written = preamble(version) ++ frame(bincode(status number, headers)) ++ frame(body)
         r is Ok ==> response.body@.len() <= old(send_stream).codec.max, // @OBL write_response::sender_enforces_limit [C15] a response whose body exceeds the local maximum is refused by the sender
-        final(send_stream).codec == old(send_stream).codec, // @OBL write_response::codec_unchanged [C15] writing does not change the limit
+        final(send_stream).codec == old(send_stream).codec && final(send_stream).inner.id() == old(send_stream).inner.id(), // @OBL write_response::codec_unchanged [C15,C02] writing changes neither the limit nor which stream is written to
 ''')
     t += C.fn(WIRE, 'fn read_request', 'read_request', ['C07', 'C06', 'C15', 'C02'], ret='r',
               spec=codec_pre % ('recv_stream', 'recv_stream') + '''        old(recv_stream).buffered@.len() == 0,
@@ -423,6 +435,7 @@ pub open spec fn no_limit() -> usize { usize::MAX }   // "no size limit is impos
             let raw = RawRequestHeader::de(d.0)->Some_0;
             r->Ok_0.head.route == raw.route && r->Ok_0.head.headers == raw.headers && r->Ok_0.body@ == d.1 && r->Ok_0.head.version == Version::V1
         }), // @OBL read_request::fields [C07,C02] the decoded request is exactly (route, headers) of the header frame, the bytes of the body frame and the preamble's version
+        final(recv_stream).codec == old(recv_stream).codec, // @OBL read_request::codec_unchanged [C15] reading does not change the limit
         r is Ok ==> r->Ok_0.head.extensions.is_empty_spec(), // @OBL read_request::no_extensions [C07,C01] nothing carried in the message ends up in the request's extensions
 ''')
     t += C.fn(WIRE, 'fn read_response', 'read_response', ['C07', 'C06', 'C15', 'C02'], ret='r',
@@ -437,8 +450,10 @@ pub open spec fn no_limit() -> usize { usize::MAX }   // "no size limit is impos
             let raw = RawResponseHeader::de(d.0)->Some_0;
             Some(r->Ok_0.head.status) == status_of(raw.status) && r->Ok_0.head.headers == raw.headers && r->Ok_0.body@ == d.1 && r->Ok_0.head.version == Version::V1
         }), // @OBL read_response::fields [C07,C02] the decoded response is exactly status and headers of the header frame and the bytes of the body frame
+        final(recv_stream).codec == old(recv_stream).codec, // @OBL read_response::codec_unchanged [C15] reading does not change the limit
         r is Ok ==> r->Ok_0.head.extensions.is_empty_spec(), // @OBL read_response::no_extensions [C07,C01] nothing carried in the message ends up in the response's extensions
 ''')
+    t += prelude.peer_types(C) + streams_parts.build(C)
     t += C.helpers_here()
     t += '''
 // ---------------- end-to-end lemmas over the contracts above (C07: lossless round trip, strict prefixes rejected) ----------------
